@@ -6,7 +6,13 @@ P: the placement table of loadSyntaxRule, the tag numbering and the set of root 
 K: valid DSL generated from abstract rule descriptions (pattern alternatives with the variables gogrep / regexp say they bind,
    Where atoms over a variable pool with kind / object / node-type / version arguments, At(), Report/Suggest templates);
    the Coq validation model (vm_compute) predicts accept / reject for each and is compared with Engine.Load.
-O: the property itself on seven streams (fn: catalogues of the statement and expression forms of the Go grammar inside custom
+   A file is a list of groups of rules: validate_file (the loader with NO state between rules) = every rule validates alone;
+   loadRule / the rules loop of loadRuleGroup / the loader's fields and every assignment rooted at the loader are regenerated.
+O: the property itself on eight streams (group: files with several rules per group and several groups -- for every op that takes a
+   variable, a later rule / one alternative of a later rule / the rule of the next group repeats the clauses of an earlier rule over a
+   pattern that does not bind the variable; At(), helpers, comment rules, templates; generated files; every rule is also loaded
+   ALONE (a file is accepted iff each of its rules is), the groups also as Loads of their own on one engine; an error names a
+   line of a rule that is rejected alone; fn: catalogues of the statement and expression forms of the Go grammar inside custom
    filter functions, Do handlers, uncalled functions and methods, rule-group bodies, Where() arguments and local helper
    templates, and of the names a helper template can declare; chain: every combination of the chain methods of a rule, their
    argument spellings, look-alike user types for the chain methods and for the selector path of EVERY op of the regenerated
@@ -133,7 +139,7 @@ def run(c):
         memo = {}
         for x in cases:
             if x["stream"] == "group" and x["obs"]["kind"] in ("ok", "error"):
-                for j, r in enumerate(r for g in x["groups"] for r in g["rules"]):
+                for j, r in enumerate(r for g in (x.get("groups") or []) for r in g["rules"]):
                     key = json.dumps(r, sort_keys=True)
                     if key in memo:
                         group_alias[x["id"] * 1000 + j] = memo[key]
@@ -199,10 +205,10 @@ def run(c):
     def judge_group(x, inp, verdict):
         """a file with several rules per group / several groups: what Load checks for a rule does not depend on the rules before it"""
         o = x["obs"]
-        rules = [(gi, k, r) for gi, g in enumerate(x["groups"]) for k, r in enumerate(g["rules"])]
-        alone = [a for g in x["alone"] for a in g]
+        rules = [(gi, k, r) for gi, g in enumerate(x.get("groups") or []) for k, r in enumerate(g["rules"])]
+        alone = [a for g in (x.get("alone") or []) for a in g]
         c.nontriv(("group", x.get("src")))
-        name = lambda gi, k: "rule %d of group g%d" % (k + 1, gi + 1)
+        name = lambda gi, k: "rule %d of the %s group" % (k + 1, ["first", "second", "third", "fourth"][min(gi, 3)] if len(x.get("groups") or []) > 1 else "only listed")
         inp = dict(inp, what=x.get("what"), alone=["%s: %s" % (name(gi, k), a["kind"] + (" " + a.get("err", "") if a["kind"] != "ok" else ""))
                                                    for (gi, k, _), a in zip(rules, alone)])
         if o["kind"] not in ("ok", "error"):
